@@ -77,6 +77,8 @@ type scenario struct {
 	TrustedPeer   bool
 	SentXFF       bool
 	SentForwarded bool
+	// the pipeline produces headers which name the original request (X-Forwarded-Host, X-Forwarded-Proto) itself
+	PipelineNamesOrigin bool
 }
 
 func (s scenario) String() string {
@@ -120,6 +122,11 @@ func genScenario(t *rapid.T) scenario {
 
 	if rapid.IntRange(0, 9).Draw(t, "trailingSlash") == 0 {
 		s.RawPath += "/"
+	}
+
+	// (the path may be nothing but the prefix, which a rewrite strips completely)
+	if prefix != "" && rapid.IntRange(0, 5).Draw(t, "pathIsThePrefix") == 3 {
+		s.RawPath = prefix
 	}
 
 	if rapid.IntRange(0, 2).Draw(t, "withRewrite") != 0 {
@@ -187,6 +194,25 @@ func genScenario(t *rapid.T) scenario {
 		s.ClientHeaders = append(s.ClientHeaders, vkit.HeaderKV{Name: "Forwarded", Value: "for=198.51.100.7;proto=http"})
 	}
 
+	if rapid.IntRange(0, 3).Draw(t, "pipelineNamesOrigin") == 0 {
+		s.PipelineNamesOrigin = true
+
+		for _, name := range []string{"X-Forwarded-Host", "X-Forwarded-Proto"} {
+			if rapid.Bool().Draw(t, "clientSends."+name) {
+				s.ClientHeaders = append(s.ClientHeaders, vkit.HeaderKV{Name: randCase(t, name), Value: map[string]string{"X-Forwarded-Host": "client.example.com", "X-Forwarded-Proto": "https"}[name]})
+
+				if name == "X-Forwarded-Proto" {
+					// (a trusted peer's word makes this an https request; the echo upstream speaks plain http)
+					if s.Rewrite == nil {
+						s.Rewrite = &rewrite{}
+					}
+
+					s.Rewrite.Scheme = "http"
+				}
+			}
+		}
+	}
+
 	if s.Method != "GET" && s.Method != "DELETE" {
 		size := rapid.SampledFrom([]int{0, 1, 17, 1000, 4096, 65536}).Draw(t, "bodySize")
 		s.Body = bytes.Repeat([]byte{byte(rapid.IntRange(0, 255).Draw(t, "bodyByte")), 'x', '\n', 0}, size/4+1)[:size]
@@ -207,11 +233,17 @@ func buildWorld(s scenario) (*vkit.World, error) {
 	conf.Prototypes.Authorizers = []config.Mechanism{{ID: "body", Type: "cel", Config: config.MechanismConfig{
 		"expressions": []any{map[string]any{"expression": `Request.Body() != null`}},
 	}}}
-	conf.Prototypes.Finalizers = []config.Mechanism{{ID: "hdrs", Type: "header", Config: config.MechanismConfig{"headers": map[string]any{
+	pipelineHeaders := map[string]any{
 		"X-User": "pipeline-user", "Authorization": "Bearer pipeline-token",
 		// a template which renders to nothing (an attribute the subject does not have): still the pipeline's header
 		"X-Empty": `{{ if eq .Subject.ID "nobody" }}x{{ end }}`,
-	}}}}
+	}
+
+	if s.PipelineNamesOrigin {
+		pipelineHeaders["X-Forwarded-Host"], pipelineHeaders["X-Forwarded-Proto"] = "pipeline.example.com", "pipeline-proto"
+	}
+
+	conf.Prototypes.Finalizers = []config.Mechanism{{ID: "hdrs", Type: "header", Config: config.MechanismConfig{"headers": pipelineHeaders}}}
 
 	w, err := vkit.NewWorld(vkit.WorldOpts{Conf: conf, Mode: config.ProxyMode})
 	if err != nil {
@@ -336,6 +368,7 @@ func TestForwardedRequestIsTheRewrittenRequest(t *testing.T) {
 		vkit.S.LabelIf(strings.Contains(s.RawPath, "%"), "encoded_path")
 		vkit.S.LabelIf(s.Rewrite != nil, "rewrite")
 		vkit.S.LabelIf(s.Rewrite != nil && s.Rewrite.Strip != "" && strings.HasPrefix(s.RawPath, s.Rewrite.Strip), "strip_prefix_applies")
+		vkit.S.LabelIf(s.Rewrite != nil && s.Rewrite.Strip == s.RawPath && s.Rewrite.Add != "", "whole_path_stripped_then_prefix_added")
 		vkit.S.LabelIf(len(s.Body) > 4096, "large_body")
 		vkit.S.LabelIf(s.Chunked, "chunked_body")
 		vkit.S.LabelIf(s.TrustedPeer, "trusted_peer")
@@ -440,6 +473,25 @@ func TestForwardedRequestIsTheRewrittenRequest(t *testing.T) {
 			t.Fatalf("upstream Authorization %q, expected only the pipeline's value\n%s", got, s)
 		}
 
+		if s.PipelineNamesOrigin {
+			vkit.S.Label("pipeline_produces_x_forwarded_host_and_proto")
+
+			// (stated is what happens to a header the client sent as well; whether heimdall's own idea of the original host
+			// and scheme or the pipeline's goes upstream otherwise is not)
+			for name, want := range map[string]string{"X-Forwarded-Host": "pipeline.example.com", "X-Forwarded-Proto": "pipeline-proto"} {
+				sent := false
+				for _, h := range s.ClientHeaders {
+					sent = sent || strings.EqualFold(h.Name, name)
+				}
+
+				if got := up.Header.Values(name); sent && (len(got) != 1 || got[0] != want) {
+					t.Fatalf("upstream %s %q: the client sent this header and the pipeline produced it, expected only the pipeline's value %q\n%s", name, got, want, s)
+				}
+
+				vkit.S.LabelIf(sent && s.TrustedPeer, "pipeline_and_trusted_client_both_name_"+strings.ToLower(name))
+			}
+		}
+
 		for _, v := range up.Header.Values("X-Empty") {
 			if v != "" {
 				t.Fatalf("upstream X-Empty %q: the pipeline produced this header (with an empty value), the client's value must not pass\n%s", up.Header.Values("X-Empty"), s)
@@ -483,6 +535,20 @@ func TestForwardedRequestIsTheRewrittenRequest(t *testing.T) {
 		default:
 			// (an IPv6 address comes in brackets and quoted, RFC 7239, section 6)
 			els := vkit.ForwardedElements(fwd)
+
+			if fwd == "" && xff != "" {
+				// the client named the original host or scheme in the X-Forwarded-* family (and possibly sent a Forwarded header
+				// as well): which of the two families is continued then is not stated, one of them has to name the peer last
+				vkit.S.Label("dont_care:which_header_family_is_continued")
+
+				parts := strings.Split(strings.Join(up.Header.Values("X-Forwarded-For"), ","), ",")
+				if strings.TrimSpace(parts[len(parts)-1]) != s.Peer {
+					t.Fatalf("X-Forwarded-For %q does not end with the peer %s\n%s", xff, s.Peer, s)
+				}
+
+				break
+			}
+
 			if len(els) == 0 || strings.Trim(els[len(els)-1]["for"], "[]") != s.Peer {
 				t.Fatalf("Forwarded %q (X-Forwarded-For %q) is not extended by the peer %s\n%s", fwd, xff, s.Peer, s)
 			}
